@@ -410,11 +410,16 @@ def run_model_cases(prop, preamble, run_fn, cases_coq, shard_size=400, sample_id
 # ---------------------------------------------------------------------------
 # Rust harness
 
+def target_dir():
+    """Cargo target directory; VERIF_CARGO_TARGET selects a private one (avoids waiting on the
+    build lock while several builders share the default directory)."""
+    return os.environ.get("VERIF_CARGO_TARGET") or os.path.join(HARNESS, "target")
+
+
 def cargo_build(bins, profile="dev", timeout=3000):
     """Builds harness binaries against /repo's current working tree. Returns (ok, output)."""
-    with Lock("cargo"):
-        lock_src = os.path.join(REPO, "node", "Cargo.lock")
-        cmd = ["cargo", "build", "--offline", "-q"]
+    with Lock("cargo-" + os.path.basename(target_dir())):
+        cmd = ["cargo", "build", "--offline", "-q", "--target-dir", target_dir()]
         if profile == "release":
             cmd.append("--release")
         for b in bins:
@@ -424,7 +429,7 @@ def cargo_build(bins, profile="dev", timeout=3000):
 
 
 def bin_path(name, profile="dev"):
-    return os.path.join(HARNESS, "target", "release" if profile == "release" else "debug", name)
+    return os.path.join(target_dir(), "release" if profile == "release" else "debug", name)
 
 
 def run_impl(binname, cases, profile="dev", args=(), timeout=3000, shards=16):
